@@ -64,6 +64,33 @@ def group(terms, splits):
     return f"{lt} + {rt}"
 
 
+def group_signed(items, splits):
+    """items: list of (sign, term text) with items[0] positive. Parenthesise according to splits, distributing
+    a minus over a parenthesised group: a - (b + c) stands for a - b - c, a - (b - c) for a - b + c."""
+    if len(items) == 1:
+        return items[0][1]
+    k = (splits[0] % (len(items) - 1)) + 1 if splits else len(items) - 1
+    left, right = items[:k], items[k:]
+    sign = right[0][0]
+    if sign == "-":
+        right = [("+" if s == "-" else "-", t) for s, t in right]
+    right = [("+", right[0][1])] + right[1:]
+    l = group_signed(left, splits[1:]) if len(left) > 1 else left[0][1]
+    lt = f"({l})" if len(left) > 1 and splits and splits[0] % 2 else l
+    if len(right) == 1:
+        rt = right[0][1]
+    else:
+        rt = "(" + group_signed(right, splits[2:]) + ")"
+    return f"{lt} {sign} {rt}"
+
+
+def flat_signed(items):
+    out = items[0][1]
+    for s, t in items[1:]:
+        out += f" {s} {t}"
+    return out
+
+
 def paren_if_needed(t):
     return f"({t})" if t.startswith("-") else t
 
@@ -73,15 +100,21 @@ def sum_case():
         lambda ts: st.tuples(st.permutations(list(range(len(ts)))), st.lists(st.integers(0, 5), max_size=6), st.lists(st.integers(0, 5), max_size=6)).map(
             lambda pq: {"sub": "order", "terms": ts, "perm": list(pq[0]), "g1": pq[1], "g2": pq[2]}
         )
-    )
+    ).flatmap(lambda c: st.one_of(st.just(c), st.just(c), st.lists(st.sampled_from(["+", "-", "-"]), min_size=len(c["terms"]) - 1, max_size=len(c["terms"]) - 1).map(lambda sg: {**c, "signs": sg})))
 
 
 def check_order(ctx, case):
     from mathy_core import util as U
 
     ts = [paren_if_needed(t) for t in case["terms"]]
-    a = group(ts, case["g1"])
-    b = group([ts[i] for i in case["perm"]], case["g2"])
+    if case.get("signs"):
+        # sums with subtractions: same signed terms, same order, different grouping
+        items = [("+", ts[0])] + [(sg, t) for sg, t in zip(case["signs"], ts[1:])]
+        a = flat_signed(items)
+        b = group_signed(items, case["g2"] or [0])
+    else:
+        a = group(ts, case["g1"])
+        b = group([ts[i] for i in case["perm"]], case["g2"])
     ta, tb = E.parse(a), E.parse(b)
     if ta is None or tb is None:
         ctx.count("order:rejected-text")
